@@ -153,6 +153,15 @@ func (c *Config) Unpack(to interface{}, options ...Option) error {
 		return raisePointerRequired(vTo)
 	}
 
+	// Nothing can be stored through a nil pointer, and a nil map passed by
+	// value can not be replaced by an allocated one.
+	if vTo.IsNil() {
+		if k == reflect.Map {
+			return raisePointerRequired(vTo)
+		}
+		return raiseNil(ErrNilValue)
+	}
+
 	return reifyInto(opts, vTo, c)
 }
 
@@ -163,6 +172,11 @@ func (c *Config) UnpackWithoutOptions(to interface{}) error {
 
 func reifyInto(opts *options, to reflect.Value, from *Config) Error {
 	to = chaseValuePointers(to)
+
+	// a nil interface has no type to unpack into (*interface{} as target)
+	if to.Kind() == reflect.Interface && to.IsNil() {
+		return raiseNil(ErrNilValue)
+	}
 
 	if to, ok := tryTConfig(to); ok {
 		return mergeConfig(opts, to.Addr().Interface().(*Config), from)
